@@ -42,6 +42,7 @@ def run(ctx, rep, tier):
     loops.sort(key=lambda n: n.lineno)
 
     rep.rule("C05.a", "short-circuit merges append the absorbed transition's actions after the absorbing one's, carry the error mark, retarget")
+    rep.rule("C05.g", "neither rewriting loop bypasses an accepting state (resting in it is observable: DONE from feed/end)")
     rep.rule("C05.b", "no rewiring across condition points / non-eliminable proxies (source or target); Else widened by target.compute_foreign_else_definition(source)")
     for li, lp in enumerate(loops):
         name = ("fallthrough short-circuit", "dummy-state removal")[li]
@@ -64,6 +65,18 @@ def run(ctx, rep, tier):
             ok = isinstance(t, ast.BoolOp) and isinstance(t.op, ast.Or) and len(t.values) == 2 and \
                 {True} == {any(proxy_clause(v, x) for v in t.values) for x in (f"{tv}.target", sv)} and isinstance(guard.body[-1], ast.Continue) and len(guard.body) == 1
             why = f"guard is `{ast.unparse(t)}`"
+        # --- C05.g: a skip guard for accepting targets among the statements before the first rewiring statement
+        acc = False
+        for st in lp.body:
+            if any(isinstance(n, ast.Call) and isinstance(n.func, ast.Attribute) and n.func.attr in ("attach", "to", "fallthrough", "handles_else") for n in ast.walk(st)):
+                break
+            if isinstance(st, ast.If) and not st.orelse and len(st.body) == 1 and isinstance(st.body[0], ast.Continue):
+                disj = st.test.values if isinstance(st.test, ast.BoolOp) and isinstance(st.test.op, ast.Or) else [st.test]
+                if any(ast.unparse(d) in (f"{tv}.target in self.dfa.accepting_states", f"self.dfa.is_accepting({tv}.target)") for d in disj):
+                    acc = True
+        rep.check(acc, "C05.g", SC, f"{name}: a transition into an accepting state is never rewired past it",
+                  "the pass retargets a fall-through transition past an accepting state: the machine no longer rests in that state, so feed()/end() report a different "
+                  "result at that point (e.g. `optional { \"a\"; } finish; ...` under -O3)")
         rep.check(ok, "C05.b", SC, f"{name}: skip when source or target is a non-eliminable proxy / condition point",
                   f"{why}: the pass may now merge a transition across a condition point or a proxy state that carries actions (e.g. fold the statements after a yield behind its return)")
         # --- merge statements
